@@ -94,9 +94,16 @@ func judge(out *pipe.Outcome, ix *pipe.Index) pipe.Verdict {
 	if i := strings.LastIndex(instant, "|cause="); i >= 0 {
 		instant = instant[i+7:]
 	}
+	duringRecovery := false
 	add := func(cl, detail string, around ...int) {
-		v.Violations = append(v.Violations, vp.Violation{Property: "C12", Class: cl,
-			Identity: fmt.Sprintf("C12/%s/%s/%s", cl, sc.Engine, instant), Detail: detail, Witness: rig.Excerpt(evs, around, 8)})
+		id := fmt.Sprintf("C12/%s/%s/%s", cl, sc.Engine, instant)
+		if duringRecovery && (cl == "not-marked-failed-by-force-stop" || cl == "automatic-restart-after-force-stop" || cl == "not-restartable" || cl == "recovering-after-force-stop") {
+			// the force stop was accepted while the pipeline reported Recovering: the registry
+			// still holds the dead pre-recovery run, so the stop may act on it while the
+			// restarted run is already being built (one specific, recorded race)
+			id = fmt.Sprintf("C12/force-stop-during-recovery-restart-race/%s", sc.Engine)
+		}
+		v.Violations = append(v.Violations, vp.Violation{Property: "C12", Class: cl, Identity: id, Detail: detail, Witness: rig.Excerpt(evs, around, 8)})
 	}
 	// locate the force stop and the following user start
 	fs, fsRet, start := -1, -1, -1
@@ -104,6 +111,7 @@ func judge(out *pipe.Outcome, ix *pipe.Index) pipe.Verdict {
 		e := &evs[i]
 		if e.Kind == rig.KCtl && e.Op == "ForceStop" && fs < 0 {
 			fs = i
+			duringRecovery = e.Note == "Recovering"
 		}
 		if e.Kind == rig.KCtlRet && e.Op == "ForceStop" && fsRet < 0 {
 			fsRet = i
